@@ -1,16 +1,17 @@
 #!/bin/bash
-# Run once after a fresh restore, offline: pre-builds every harness binary into /verif/.cache so the
-# first check does not pay the cold-cache compile. Everything comes from files on disk.
+# Run once after a fresh restore, offline: pre-builds the harness binary of every check claimed in
+# MANIFEST.json and the quick-tier codec workers into /verif/.cache, so that the first check does not
+# pay the cold-cache compile. Everything comes from files on disk.
 set -u
 export VERIF_DIR="$(cd "$(dirname "$0")" && pwd)"
 . "$VERIF_DIR/env.sh"
 mkdir -p "$VERIF_DIR/.cache/bin" "$VERIF_DIR/evidence"
-cd "$VERIF_DIR/harness" || exit 1
+cd "$VERIF_DIR" || exit 1
 rc=0
-for d in cmd/*/; do
-  n=$(basename "$d")
-  if ! go build -o "$VERIF_DIR/.cache/bin/$n" "./cmd/$n"; then
-    echo "setup: build of cmd/$n failed" >&2
+ids=$(python3 -c "import json;print(' '.join(c['property_id'] for c in json.load(open('MANIFEST.json'))['checks']))")
+for id in $ids; do
+  if ! ./check "$id" --build-only; then
+    echo "setup: build for $id failed" >&2
     rc=1
   fi
 done
